@@ -20,6 +20,9 @@ KEYS = [K(A), K(SEC), K(SEC, SX), K(SEC, SX, SY), K(LST, "i0"), K(LST, "i1")]
 FALSY = [None, 0, False, lit(""), [], {}]
 TRUTHY = [1, lit("t"), [1], {SY: 1}]
 TEMPL = [S(("ref", K(B))), S(("lit", "a"), ("ref", K(B)))]
+# templated strings inside container values: evaluate resolves them too (keys()/explain() do not see
+# them: finding D1, which concerns C01/C03/C09, not the value an Option yields)
+TEMPLC = [[S(("ref", K(B))), 1], {SY: S(("lit", "a"), ("ref", K(B)))}, [[S(("ref", K(B)))]]]
 
 
 def place(key, v, extra):
@@ -182,7 +185,7 @@ def exhaustive_options(ctx):
     violations, stats, corr = [], {}, []
     base = dict(ftable=FT, env=ENV)
     n = 0
-    vals = FALSY + TRUTHY + TEMPL
+    vals = FALSY + TRUTHY + TEMPL + TEMPLC
     combos = list(itertools.product(KEYS, DEFAULTS, DOMAINS))
     if ctx.quick:
         combos = [c for i, c in enumerate(combos) if i % 2 == 0 or c[1][0] in ("none", "constant")]
